@@ -441,7 +441,7 @@ T_RES = ["value", "exc", "drop"]
 
 
 def t_line(kind, n):
-    if kind in ("start", "startw", "value"):
+    if kind in ("start", "startw", "value", "join"):
         return "t %s %d" % (kind, 10 + n)
     if kind in ("startx", "exc"):
         return "t %s %d" % (kind, 1 + n)
@@ -504,7 +504,7 @@ class RaceSuite(Suite):
     @staticmethod
     def parse(case, out):
         threads = [l.split() for l in case["lines"][1:] if l.split()[:1] == ["t"] and len(l.split()) > 1]
-        info = {"threads": threads, "rets": {}, "body_run": {}, "argd_run": {}, "count": {}, "final": None,
+        info = {"threads": threads, "rets": {}, "obs": {}, "body_run": {}, "argd_run": {}, "count": {}, "final": None,
                 "deadlock": False, "crash": None, "assert": None, "ops": [], "cleanup": False}
         for l in out:
             w = l.split()
@@ -512,6 +512,8 @@ class RaceSuite(Suite):
                 continue
             if w[0] == "ret":
                 info["rets"].setdefault(int(w[1][1:]), []).append(int(w[2]))
+            elif w[0] == "obs":
+                info["obs"].setdefault(int(w[1][1:]), []).append(w[2] if len(w) > 2 else "-")
             elif w[0] == "body" and not info["cleanup"]:
                 info["body_run"][int(w[1][1:])] = info["body_run"].get(int(w[1][1:]), 0) + 1
             elif w[0] == "argd" and not info["cleanup"]:
@@ -568,13 +570,30 @@ class RaceSuite(Suite):
             return ["crash: the implementation crashed (%s)" % i["crash"]]
         if i["assert"]:
             return ["assert: " + i["assert"]]
-        if i["deadlock"]:
-            return ["hang: the racing threads did not finish"]
-        msgs = []
         th = i["threads"]
+        if i["deadlock"]:
+            # which threads never finished, and was the thing they wait for completed during the run?
+            fin = {int(w[1]) for w in i["ops"] if len(w) > 2 and w[2] == "fin"}
+            slot_done = any(len(w) > 4 and w[2] == "xchg" and w[3] == "slot" and w[4].endswith(">ready") for w in i["ops"])
+            gate_done = any(len(w) > 4 and w[2] == "xchg" and w[3] == "gate" and w[4].endswith(">ready") for w in i["ops"])
+            stuck = []
+            for n, t in enumerate(th):
+                if n in fin:
+                    continue
+                if t[1] == "wait" and not slot_done:
+                    continue      # the shared future is completed by the controller after the run
+                if t[1] == "join" and not gate_done:
+                    continue      # the gate is opened by the controller after the run
+                if t[1] == "dtor" and any(m not in fin for m, u in enumerate(th) if u[1] in T_START + T_RES):
+                    continue      # sequenced after the users of the promise
+                stuck.append("t%d:%s" % (n, t[1]))
+            if not stuck:
+                return []
+            return ["hang: %s never woken although the future it waits for was completed by another thread" % " ".join(stuck)]
+        msgs = []
         if not th:
             return msgs
-        claimers = [n for n, t in enumerate(th) if t[1] != "dtor"]
+        claimers = [n for n, t in enumerate(th) if t[1] in T_START + T_RES]
         for n in claimers:
             if len(i["rets"].get(n, [])) != 1:
                 msgs.append("claimed-promise: call of t%d returned %d times" % (n, len(i["rets"].get(n, []))))
@@ -598,6 +617,12 @@ class RaceSuite(Suite):
                     msgs.append("body-once: body of t%d ran %d times" % (n, body))
                 if argd != 1:
                     msgs.append("args-once: arguments of the coroutine of t%d destroyed %d times" % (n, argd))
+            elif t[1] == "join":
+                if body != 1 or argd != 1:
+                    msgs.append("body-once: coroutine of join() thread t%d: body ran %d times, arguments destroyed %d times" % (n, body, argd))
+                exp = "v" if ty == "void" else "v:" + (t[2] if len(t) > 2 else "0")
+                if i["obs"].get(n) != [exp]:
+                    msgs.append("delivery: join() of t%d returned %s, its body produced %s" % (n, i["obs"].get(n), exp))
             elif body or argd:
                 msgs.append("body-once: thread t%d owns no coroutine but one ran" % n)
         st, val = i["final"]
@@ -617,7 +642,65 @@ class RaceSuite(Suite):
             if val != exp:
                 msgs.append("delivery: the future holds %s, the winner (%s) produced %s" % (
                     val, "t%d:%s" % (wins[0], th[wins[0]][1]) if wins else "nobody", exp))
+        for n, t in enumerate(th):
+            if t[1] == "wait" and i["obs"].get(n) != [val]:
+                msgs.append("delivery: wait() of t%d observed %s, the future holds %s" % (n, i["obs"].get(n), val))
         return msgs
+
+
+T_PAIRS_J = [("wait", "start"), ("start", "wait"), ("wait", "startx"), ("wait", "value"), ("wait", "exc"), ("wait", "drop"),
+             ("wait", "dtor"), ("join", "open"), ("open", "join")]
+T_TRIPLES_J = [("wait", "start", "start"), ("wait", "startw", "open"), ("join", "open", "start"), ("wait", "wait", "start"),
+               ("join", "join", "open"), ("wait", "value", "start"), ("open", "wait", "startw")]
+
+
+class JoinRaceSuite(RaceSuite):
+    """the bound party blocks in wait()/join() while another thread completes the future: every interleaving of the
+    subscription with the resolution; oracle only (the micro-step model of the race does not include the sync awaiter)"""
+    name = "join-race"
+    driver = None
+    compare = False
+    corpus_prefix = "c04j_"
+    nontrivial_rule = "a thread blocks in wait()/join() and the interleaving contains a context switch between its subscription and the resolution"
+
+    def gen_cases(self, rng, tier):
+        L2, L3, n3 = (10, 6, 1500) if tier == "quick" else (13, 9, 30000)
+        cases = []
+        for sh in T_PAIRS_J:
+            for bits in itertools.product([0, 1], repeat=L2):
+                tail = [rng.randrange(2) for _ in range(rng.choice([0, 0, 2, 4]))]
+                cases.append(t_case(sh, list(bits) + tail, rng.choice(["int", "int", "void", "uptr"])))
+        if L3:
+            for sh in T_TRIPLES_J:
+                for tr in itertools.product([0, 1, 2], repeat=L3):
+                    tail = [rng.randrange(3) for _ in range(rng.choice([0, 3, 6]))]
+                    cases.append(t_case(sh, list(tr) + tail))
+        for _ in range(n3):
+            n = rng.choice([3, 3, 4])
+            kinds = [rng.choice(["wait", "wait", "join"])]
+            while len(kinds) < n:
+                kinds.append(rng.choice(T_START + T_RES + ["wait", "join"]))
+            if any(k in ("startw", "join") for k in kinds):
+                kinds[-1 if kinds[-1] not in ("join",) or n < 3 else 1] = "open"
+                if not any(k in ("startw", "join") for k in kinds):
+                    kinds[0] = "join"
+            if not any(k in T_START + T_RES for k in kinds) and rng.random() < 0.5:
+                kinds.append("dtor")
+            rng.shuffle(kinds)
+            nn = len(kinds)
+            sched = []
+            ln = rng.randint(0, 7 * nn)
+            while len(sched) < ln:
+                sched += [rng.randrange(nn)] * (1 if rng.random() < 0.7 else rng.randint(2, 3))
+            cases.append(t_case(kinds, sched[:ln], rng.choice(["int", "int", "void", "uptr"])))
+        return cases
+
+    def nontrivial(self, case, out):
+        i = self.parse(case, out)
+        if not any(t[1] in ("wait", "join") for t in i["threads"]):
+            return False
+        tids = [w[1] for w in i["ops"]]
+        return sum(1 for a, b in zip(tids, tids[1:]) if a != b) >= 2
 
 
 class C04(Spec):
@@ -646,7 +729,7 @@ class C04(Spec):
                    "only the driver resolves the external promises (coroutines do not race for them)"]
 
     def suites(self):
-        return [AsyncSuite(), RaceSuite()]
+        return [AsyncSuite(), RaceSuite(), JoinRaceSuite()]
 
 
 SPEC = C04()
